@@ -20,8 +20,24 @@ let idx_of_pph (p : pph) : int =
   let r = ref (-1) in
   Array.iteri (fun i x -> if x = key then r := i) pool; !r
 
+(* per-peer headers that came in BMP frames (op WB): named by the FNV-1a of what routecore's PartialEq compares
+   (type, flags, distinguisher, address as read, AS, BGP id), as harness/src/engines/pipe.rs wire_name has it *)
+let wire_names : (pph, string) Hashtbl.t = Hashtbl.create 16
+let be32 (x : BinNums.coq_N) : int list = let v = int_of_n x in [(v lsr 24) land 255; (v lsr 16) land 255; (v lsr 8) land 255; v land 255]
+let note_wire_pph (p : BmpWire.wpph) : unit =
+  let (((((ty, fl), dist), addr), asn), id) = BmpWireAbs.ident p in
+  let ints l = Stdlib.List.map int_of_n l in
+  let octets = [int_of_n ty; int_of_n fl] @ ints dist @ ints addr @ be32 asn @ ints id in
+  Hashtbl.replace wire_names (BmpWireAbs.abs_pph p) (Printf.sprintf "x%08x" (C04_util.fnv octets))
+let wire_pph_of (m : BmpWire.wmsg) : BmpWire.wpph option =
+  match m with
+  | BmpWire.WRoute (p, _) | BmpWire.WStats (p, _, _) | BmpWire.WPeerDown (p, _, _) | BmpWire.WMirror (p, _) -> Some p
+  | BmpWire.WPeerUp (p, _, _, _, _, _, _) -> Some p
+  | BmpWire.WInit _ | BmpWire.WTerm _ -> None
+
 let wid_name ((k, p) : wid) : string =
   let k = int_of_n k in
+  if k < 1000 && Hashtbl.mem wire_names p then Printf.sprintf "k%d%s" k (Hashtbl.find wire_names p) else
   if k >= 1000 then
     let ((((((c,_),_),_),_),_),_) = p in Printf.sprintf "b%dc%d" (k - 1000) (int_of_n c)
   else Printf.sprintf "k%dp%d" k (idx_of_pph p)
@@ -82,9 +98,10 @@ let run_case (line : string) : string =
   let hist : RibModel.update list ref = ref [] in
   let mo = ref [] and so = ref [] and cl = ref [] in
   let emit a b c = mo := a :: !mo; so := b :: !so; cl := c :: !cl in
-  let do_op toks =
+  let rec do_op toks =
     let i k = int_of_string (Stdlib.List.nth toks k) in
     let t k = Stdlib.List.nth toks k in
+    if Stdlib.List.hd toks = "WB" then wire_op (n (i 1)) (C04_util.ns_of_hex (t 2)) else
     let upd off = URoutes (n (i off), plist (i off) (t (off + 2)), n (i (off + 1)), n (i (off + 3)), plist (i (off + 3)) (t (off + 4))) in
     let op : wop = match Stdlib.List.hd toks with
       | "C" -> WConnect (n (i 1))
@@ -108,6 +125,8 @@ let run_case (line : string) : string =
       | "QX" -> WQuery (n (i 1), PipeRaw.pfx_code (raw_pfx (t 2)))
       | "M" -> WMetrics (n (i 1))
       | s -> failwith ("bad op " ^ s) in
+    step_op (n (i 1)) op
+  and step_op af op =
     let (w', out) = wstep !w op in
     let (sw', sout) = sstep !sw op in
     w := w'; sw := sw';
@@ -136,7 +155,7 @@ let run_case (line : string) : string =
            let diff = uniq (Stdlib.List.map wid_of_tok
                               (Stdlib.List.filter (fun x -> not (Stdlib.List.mem x sl)) ml
                                @ Stdlib.List.filter (fun x -> not (Stdlib.List.mem x ml)) sl)) in
-           let af = n (i 1) and pfx = (match op with WQuery (_, x) -> x | _ -> n 0) in
+           let pfx = (match op with WQuery (_, x) -> x | _ -> n 0) in
            let evs = RibModel.evs_of !hist in
            let k2 = ref false and k3 = ref false and unk = ref false in
            Stdlib.List.iter (fun name ->
@@ -150,6 +169,43 @@ let run_case (line : string) : string =
            let c = if !unk then "?" else (if !k2 then "K2" else "") ^ (if !k3 then "K3" else "") in
            emit mt st c
          end)
+  (* WB k <hex>: octets arriving on router k's connection - cut into frames as io.rs bmp_read does, each frame through
+     the codec (BmpWire.decode) and the state machine's reading of it (BmpWireAbs.abstract). One token for the whole op:
+     the tokens of the frames joined by '~'; a refused frame is `unparsable/<phase>`; `short` = the length field is below
+     5 (the connection is given up), `cut` = the octets end inside a message. An accepted Initiation in the initiating
+     phase also shows what went to the ingress register: :n=<sysName hex>,d=<sysDescr hex>. *)
+  and wire_op k octets =
+    match BmpWireAbs.router_phase !w k with
+    | None -> emit "-" "-" "."
+    | Some _ ->
+        let (items, fin) = BmpWire.stream octets in
+        let saved = (!mo, !so, !cl) in
+        mo := []; so := []; cl := [];
+        Stdlib.List.iter (fun it ->
+            match it with
+            | BmpWire.SBad _ ->
+                let ph = match BmpWireAbs.router_phase !w k with Some p -> int_of_n p | None -> -1 in
+                let tok = Printf.sprintf "unparsable/%d" ph in emit tok tok "."
+            | BmpWire.SMsg m ->
+                (match wire_pph_of m with Some p -> note_wire_pph p | None -> ());
+                let before = BmpWireAbs.router_phase !w k in
+                step_op k (WMsg (k, BmpWireAbs.abstract m));
+                (match m, before, !mo with
+                 | BmpWire.WInit _, Some ph, tok :: rest when int_of_n ph = 0 ->
+                     let str o dflt = match o with Some v -> Stdlib.List.map int_of_n v | None -> Stdlib.List.init (String.length dflt) (fun j -> Char.code dflt.[j]) in
+                     let hx l = if Stdlib.List.exists (fun b -> b >= 128) l then "nonascii" else C04_util.hex_of_ints l in
+                     let sfx = Printf.sprintf ":n=%s,d=%s" (hx (str (BmpWire.sys_name m) "no-sysname")) (hx (str (BmpWire.sys_descr m) "no-sysdesc")) in
+                     mo := (tok ^ sfx) :: rest;
+                     (match !so with t2 :: r2 -> so := (t2 ^ sfx) :: r2 | [] -> ())
+                 | _ -> ())) items;
+        (match fin with
+         | BmpWire.SEnd -> ()
+         | BmpWire.SShort -> emit "short" "short" "."
+         | BmpWire.SCut -> emit "cut" "cut" ".");
+        let j l = if l = [] then "nothing" else join "~" (Stdlib.List.rev l) in
+        let (a, b, c) = (j !mo, j !so, (if Stdlib.List.for_all (fun x -> x = ".") !cl then "." else join "" (Stdlib.List.filter (fun x -> x <> ".") !cl))) in
+        let (m0, s0, c0) = saved in
+        mo := a :: m0; so := b :: s0; cl := c :: c0
   in
   Stdlib.List.iter (fun s -> do_op (words s)) (split_on ';' line);
   let r l = join " " (Stdlib.List.rev l) in
